@@ -27,3 +27,6 @@ def run(chk: Check):
     res = {str(t["ev"][-1].get("epochs")) + str(t["ev"][-1].get("posterior")) for t in cv}
     chk.extra["chunk_variants_compared"] = len(cv)
     chk.extra["chunk_variants_distinct_results"] = len(res)
+
+
+replay = EC.replay
